@@ -325,6 +325,10 @@ def gen_case(rng, ctx) -> dict[str, Any]:
 
 
 HAND_CASES = [
+    # macro parameters named like the two names every macro body gets (args, kwargs): the parameter wins, in both renderers
+    {"templates": {"main": "{% macro show args %}[{{ args }}]{% endmacro %}{% call show 'x' %}{% call show %}{% call show 'a', 'b' %}"}, "main": "main", "data": {}, "loader": "dict", "env": {"extra": True}},
+    {"templates": {"main": "{% macro m kwargs, p %}[{{ kwargs }}|{{ p }}]{% endmacro %}{% call m 1, 2 %}{% call m p: 3 %}{% call m z: 4 %}"}, "main": "main", "data": {}, "loader": "dict", "env": {"extra": True}},
+    {"templates": {"main": "{% macro m args: 'd', kwargs: 'e' %}{{ args }}{{ kwargs }}{% endmacro %}{% call m %}{% call m 1, 2, 3, k: 4 %}{% call m kwargs: 5 %}"}, "main": "main", "data": {}, "loader": "caching_dict", "env": {"extra": True}},
     # input shapes named in the property's why_tests_cant
     {"templates": {"main": "{{ [x] }}|{{ [s] }}|{{ a[x] }}"}, "main": "main", "data": {"x": 1, "s": "a", "a": {"1": "one"}}, "loader": "dict", "env": {}},
     {"templates": {"main": "{% include 'dir/foo.liquid' with v %}{% render 'dir/foo.liquid' with v %}", "dir/foo.liquid": "[{{ foo }}|{{ v }}]"}, "main": "main", "data": {"v": 5}, "loader": "dict", "env": {}},
